@@ -234,7 +234,7 @@ ForkDrift(r) ==
              THEN (CHOOSE k \in DOMAIN steps : steps[k].step \in {"new", "newirr"} /\ steps[k].num >= r.cfg.stop /\
                         \A k2 \in 1..(k - 1) : ~(steps[k2].step \in {"new", "newirr"} /\ steps[k2].num >= r.cfg.stop)) - 1
              ELSE Len(steps)
-      pred == PMsgs(PInit, [i \in 1..cut |-> ToStep(steps[i])], r.cfg.start)
+      pred == PMsgs(PInit, [i \in 1..cut |-> ToStep(steps[i])], r.cfg.start, FALSE)
       seen == SelectSeq(o.resp, LAMBDA m : m.kind = "undo" \/ (m.kind = "data" /\ m.num >= first))
       obs == [i \in DOMAIN seen |-> [k |-> seen[i].kind, b |-> [h |-> seen[i].num, br |-> seen[i].id]]]
   IN IF o.panic # "" \/ o.err # "" \/ steps = <<>> \/ (\E k \in DOMAIN steps : steps[k].step = "undo" /\ steps[k].junction = "") THEN <<>>
@@ -315,7 +315,7 @@ ForkResumeDrift(r) ==
       jnum == IF OnFull(jid) THEN full[CHOOSE j \in DOMAIN full : full[j].id = jid].num ELSE 0
       res == PResume([h |-> r.from.curnum, br |-> r.from.curid], [h |-> jnum, br |-> jid])
       fed == SelectSeq(full, LAMBDA x : x.num < c.stop)
-      pred == res.msgs \o PMsgs(PInit, [i \in DOMAIN fed |-> [k |-> "new", b |-> [h |-> fed[i].num, br |-> fed[i].id], j |-> NoBlk]], res.start)
+      pred == res.msgs \o PMsgs(PInit, [i \in DOMAIN fed |-> [k |-> "new", b |-> [h |-> fed[i].num, br |-> fed[i].id], j |-> NoBlk]], res.start, TRUE)
       obs == [i \in DOMAIN o.resp |-> [k |-> o.resp[i].kind, b |-> [h |-> o.resp[i].num, br |-> o.resp[i].id]]]
   IN IF o.panic # "" \/ o.err # "" \/ ~OnFull(jid) THEN <<>>
      ELSE F(pred = obs, "drift:resumed_messages_differ_from_pipeline_model")
